@@ -373,6 +373,7 @@ func c17Gzip(c *ctx) {
 	wg.Wait()
 	close(stopAbort)
 	awg.Wait()
+	c17Stream(c, re)
 	c.R.SetCounter("responses_aborted_by_client", aborted.Load())
 	c.R.SetCounter("compressed_responses", compressed.Load())
 	c.R.SetCounter("uncompressed_responses", plain.Load())
@@ -399,4 +400,87 @@ func c17AcceptsGzip(ae string) bool {
 		return true
 	}
 	return false
+}
+
+// c17Stream: a response that is written in two parts with a flush in between (what the reverse proxy does for streamed
+// upstream responses and with a flush interval). The handler sends the second part only after the client has confirmed
+// the first: the first part must reach the client while the response is still open, compressed or not.
+func c17Stream(c *ctx, re *regexp.Regexp) {
+	type sess struct {
+		ctype string
+		acked chan struct{}
+		late  atomic.Bool
+	}
+	var sessions sync.Map
+	part1, part2 := bytes.Repeat([]byte("first part of the stream. "), 40), bytes.Repeat([]byte("second part. "), 40)
+	inner := http.HandlerFunc(func(w http.ResponseWriter, r *http.Request) {
+		v, ok := sessions.Load(r.URL.Query().Get("id"))
+		if !ok {
+			w.WriteHeader(599)
+			return
+		}
+		ss := v.(*sess)
+		w.Header().Set("Content-Type", ss.ctype)
+		w.Write(part1)
+		http.NewResponseController(w).Flush() // like httputil.ReverseProxy: an unsupported flush is silently lost
+		select {
+		case <-ss.acked:
+		case <-time.After(3 * time.Second):
+			ss.late.Store(true)
+		}
+		w.Write(part2)
+	})
+	ln, err := net.Listen("tcp", "127.0.0.1:0")
+	if err != nil {
+		c.R.Inconcl("listen: %v", err)
+		return
+	}
+	srv := &http.Server{Handler: fgzip.NewGzipHandler(inner, re)}
+	go srv.Serve(ln)
+	defer srv.Close()
+	client := &http.Client{Transport: &http.Transport{DisableCompression: true}, Timeout: 20 * time.Second}
+	n := c.pick(12, 60)
+	for i := 0; i < n; i++ {
+		ss := &sess{ctype: []string{"text/plain", "image/png", "application/json"}[i%3], acked: make(chan struct{})}
+		ae := []string{"gzip", "gzip, br", ""}[(i/3)%3]
+		id := fmt.Sprintf("s%d", i)
+		sessions.Store(id, ss)
+		req, _ := http.NewRequest("GET", "http://"+ln.Addr().String()+"/?id="+id, nil)
+		if ae != "" {
+			req.Header.Set("Accept-Encoding", ae)
+		}
+		c.R.Eval(1)
+		resp, err := client.Do(req)
+		desc := fmt.Sprintf("content type %s, Accept-Encoding %q", ss.ctype, ae)
+		if err != nil {
+			close(ss.acked)
+			c.R.Violate("c17:stream:request-failed", desc+": "+err.Error(), nil)
+			continue
+		}
+		var body io.Reader = resp.Body
+		if resp.Header.Get("Content-Encoding") == "gzip" {
+			zr, err := stdgzip.NewReader(resp.Body)
+			if err != nil {
+				close(ss.acked)
+				resp.Body.Close()
+				c.R.Violate("c17:stream:not-gunzippable", desc+": "+err.Error(), nil)
+				continue
+			}
+			body = zr
+			c.R.Nontrivial("stream|" + desc)
+		}
+		got := make([]byte, len(part1))
+		_, rerr := io.ReadFull(body, got)
+		close(ss.acked) // the first part is here (or will never be): the handler may go on
+		rest, _ := io.ReadAll(body)
+		resp.Body.Close()
+		switch {
+		case rerr != nil || !bytes.Equal(got, part1) || !bytes.Equal(rest, part2):
+			c.R.Violate("c17:stream:content-changed", fmt.Sprintf("%s: the two parts did not arrive as written (%v)", desc, rerr), nil)
+		case ss.late.Load():
+			c.R.Violate("c17:stream:flushed-part-withheld", fmt.Sprintf("%s: the handler wrote %d bytes and flushed; 3s later the client still had not received them (they arrived only with the rest of the response)", desc, len(part1)), map[string]any{"content_type": ss.ctype, "accept_encoding": ae})
+		}
+		sessions.Delete(id)
+	}
+	c.R.Count("streamed_responses", int64(n))
 }
